@@ -265,18 +265,53 @@ def faulted(s):
     return bool(M.world(s.ctx).faults)
 
 
-def has_handlers(qualname):
-    """Does the CURRENT source of the function contain a `try` statement?  (Only then can the class of a fault matter.)"""
+def handlers_of(*qualnames):
+    """(does the CURRENT source contain a `try`?, the exception classes named in its `except` clauses) over the given
+    functions (the one under verification and whatever is inlined into it).  Read from the AST at check time."""
     import ast
+    import builtins
 
     from pyvc.interp import func_ast
 
-    node = func_ast(resolve(qualname))[0]
-    return any(isinstance(n, ast.Try) for n in ast.walk(node))
+    has_try, classes = False, []
+    for qn in qualnames:
+        fn = resolve(qn)
+        node = func_ast(fn)[0]
+        globs = getattr(fn, "__globals__", {})
+
+        def ev(e):
+            if isinstance(e, ast.Tuple):
+                return [c for x in e.elts for c in ev(x)]
+            try:
+                v = eval(compile(ast.Expression(e), "<handler>", "eval"), dict(vars(builtins)), dict(globs))  # names only
+            except Exception:  # noqa: BLE001
+                return []
+            return list(v) if isinstance(v, tuple) else [v]
+
+        for n in ast.walk(node):
+            if isinstance(n, ast.Try):
+                has_try = True
+                for h in n.handlers:
+                    classes += [BaseException] if h.type is None else ev(h.type)
+    return has_try, [c for c in classes if isinstance(c, type) and issubclass(c, BaseException)]
+
+
+def set_fault_model(w, *qualnames):
+    """The class of a fault is observable only through `except` clauses: without a `try` one class suffices; otherwise the
+    standard three plus one per class the handlers name (so that `except ValueError:` is really taken on some path)."""
+    has_try, classes = handlers_of(*qualnames)
+    w.handlers_in_scope = has_try
+    w.fault_classes = M.fault_classes_for_handlers(classes)
+
+
+def fault_is(s, C):
+    """The fault injected on this path is an instance of C (it then also matches the function's own `raises[C]` entry)."""
+    w = M.world(s.ctx)
+    return bool(w.faults) and w.fault_class is not None and issubclass(w.fault_class, C)
 
 
 def fault_raises(cond):
-    return {F: cond for F in M.FAULTS}
+    return {M.FaultMarker: cond}
 
 
 # ------------------------------------------------------------------------------------------------
@@ -294,7 +329,7 @@ def save_setup_case(storekind, compkind):
 
     def save_setup(ctx):
         w = M.world(ctx)
-        w.handlers_in_scope = has_handlers(f"{SER}:AutoSerialize.save")
+        set_fault_model(w, f"{SER}:AutoSerialize.save")
         path = ctx.fresh("path", "str")
         mode = ctx.fresh("mode", "str")
         store = ctx.fresh("store", "str")
@@ -478,6 +513,8 @@ def save_on_raise(s, E):
 
 
 def save_value_error(s):
+    if fault_is(s, ValueError):
+        return z3.BoolVal(True)
     st = P(s, "store").t
     known = OR(st == SV("auto"), st == SV("zip"), st == SV("dir"))
     has_ext = z3.Length(M.EXT(save_target(s))) != 0
@@ -534,7 +571,8 @@ def make_save_contract(storekind, compkind):
     c = Contract(
         f"{SER}:AutoSerialize.save", setup=save_setup_case(storekind, compkind), requires=save_requires, ensures=save_ensures,
         on_raise=save_on_raise,
-        raises={ValueError: save_value_error, FileExistsError: lambda s: AND(comp_ok(s), blocked(s))},
+        raises={ValueError: save_value_error,
+                FileExistsError: lambda s: z3.BoolVal(True) if fault_is(s, FileExistsError) else AND(comp_ok(s), blocked(s))},
         loops={0: LoopSpec(inv=save_outer_inv, havoc={"zip": havoc_zip}),
                1: LoopSpec(inv=save_inner_inv, havoc={"zip": havoc_zip})},
         max_paths=6000, note=f"case: store resolves to {storekind}, compression_level {compkind}",
@@ -553,7 +591,7 @@ C_SAVES = [make_save_contract(sk, ck) for sk, ck in SAVE_CASES]
 
 def rs_setup(ctx):
     w = M.world(ctx)
-    w.handlers_in_scope = has_handlers(f"{SER}:AutoSerialize._recursive_save")
+    set_fault_model(w, f"{SER}:AutoSerialize._recursive_save")
     it = Items(ctx, "obj")
     g = M.GhostGroup(w, unknown=True, tag="grp")
     s = NS(self=Obj(_Probe, {}), obj=GhostInstance(it), group=g, skip_names=GhostNameSet(ctx), skip_types=GhostTypeTuple(),
@@ -731,7 +769,7 @@ def pick_case(ctx, names, what):
 
 def sv_setup(ctx):
     w = M.world(ctx)
-    w.handlers_in_scope = has_handlers(f"{SER}:AutoSerialize._serialize_value")
+    set_fault_model(w, f"{SER}:AutoSerialize._serialize_value", *SV_INLINE)
     kinds = _kinds()
     kind = pick_case(ctx, list(kinds), "kind")
     mk, unser = kinds[kind]
@@ -821,7 +859,7 @@ def _containers():
 
 def sc_setup(ctx):
     w = M.world(ctx)
-    w.handlers_in_scope = has_handlers(f"{SER}:AutoSerialize._serialize_container")
+    set_fault_model(w, f"{SER}:AutoSerialize._serialize_container")
     cs = _containers()
     kind = pick_case(ctx, list(cs), "container")
     g = M.GhostGroup(w, unknown=True, tag="grp")
@@ -879,7 +917,7 @@ def _arrays():
 
 def wn_setup(ctx):
     w = M.world(ctx)
-    w.handlers_in_scope = has_handlers(f"{SER}:AutoSerialize._write_ndarray")
+    set_fault_model(w, f"{SER}:AutoSerialize._write_ndarray")
     arrs = _arrays()
     kind = pick_case(ctx, list(arrs), "array")
     g = M.GhostGroup(w, unknown=True, tag="grp")
@@ -933,7 +971,7 @@ C_WNDARRAY = Contract(
 
 def wb_setup(ctx):
     w = M.world(ctx)
-    w.handlers_in_scope = has_handlers(f"{SER}:AutoSerialize._write_bytes")
+    set_fault_model(w, f"{SER}:AutoSerialize._write_bytes")
     kind = pick_case(ctx, ["bytes", "empty"], "data")
     g = M.GhostGroup(w, unknown=True, tag="grp")
     return NS(group=g, name=ctx.fresh("name", "str"), data=(b"\x01\x02\x03" if kind == "bytes" else b""), compressors=None, world=w, case=kind)
